@@ -30,6 +30,11 @@ func precedesWithSuccess(fn *ssa.Function, a, b func(ssa.Instruction) bool) (boo
 		if !ok {
 			continue
 		}
+		// a later `a` that is itself always preceded by an earlier one does not carry the obligation
+		others := func(in ssa.Instruction) bool { return in != ai && a(in) }
+		if f0, _ := (pathQuery{fn: fn, target: func(in ssa.Instruction) bool { return in == ai }, avoid: others}).find(entryPos(fn)); !f0 {
+			continue
+		}
 		for e := range failureEdges(fn, c) {
 			start := ipos{e.from.Succs[e.succ], -1}
 			if found, wit := (pathQuery{fn: fn, target: b, avoid: a}).find(start); found {
@@ -997,6 +1002,160 @@ func sameValue(a, b ssa.Value) bool {
 					return true
 				}
 			}
+		}
+	}
+	return false
+}
+
+// ---------- ORD-7b: only io.EOF is a clean end of the log ----------
+
+func ruleORD7b(w *World, r *Report) {
+	r.Doc("ORD-7b", "in replayAOF a ReadFrame error other than io.EOF never ends replay quietly: every path from such an error to the function's return passes the repair (Truncate) or resumes the scan", 1)
+	fi := w.Func("pkg/engine", "Engine.replayAOF")
+	rf := w.FuncObj("pkg/persistence", "ReadFrame")
+	if fi == nil || rf == nil {
+		r.Und("ORD-7b", "anchor:replayAOF/ReadFrame", "", "anchor lost")
+		return
+	}
+	fn := w.SSAFunc(fi.Obj)
+	for _, in := range findInstrs(fn, callsTo(rf)) {
+		c := in.(*ssa.Call)
+		fail, succ := succFailEdges(fn, c)
+		_ = fail
+		blocked := map[edgeKey]bool{}
+		for k := range succ {
+			blocked[k] = true
+		}
+		// the io.EOF equality edge
+		nEOF := 0
+		for _, ev := range errValues(c) {
+			for _, ref := range *ev.Referrers() {
+				bo, ok := ref.(*ssa.BinOp)
+				if !ok || (bo.Op != token.EQL && bo.Op != token.NEQ) {
+					continue
+				}
+				other := bo.Y
+				if other == ev {
+					other = bo.X
+				}
+				u, ok := other.(*ssa.UnOp)
+				if !ok {
+					continue
+				}
+				g, ok := u.X.(*ssa.Global)
+				if !ok || g.Name() != "EOF" || g.Pkg.Pkg.Path() != "io" {
+					continue
+				}
+				if iff, ok := firstIf(bo); ok {
+					nEOF++
+					eq := 0
+					if bo.Op == token.NEQ {
+						eq = 1
+					}
+					blocked[edgeKey{iff.Block(), eq}] = true
+				}
+			}
+		}
+		if nEOF == 0 {
+			r.Und("ORD-7b", "replayAOF:eof-test", w.Pos(c.Pos()), "no `err == io.EOF` test on the ReadFrame error")
+			continue
+		}
+		repair := func(x ssa.Instruction) bool {
+			return isCallTo(x, "os", "File.Truncate") || x == in
+		}
+		found, wit := (pathQuery{fn: fn, target: isExit, avoid: repair, blocked: blocked}).find(posOf(in))
+		// exits that return a non-nil error (refusal to start, CDC-6) are not quiet ends
+		if found {
+			if rt, ok := wit[len(wit)-1].(*ssa.Return); ok && len(rt.Results) == 1 && definitelyError(retVal(rt, 0)) {
+				found2, wit2 := (pathQuery{fn: fn, target: func(x ssa.Instruction) bool {
+					rt, ok := x.(*ssa.Return)
+					return ok && !(len(rt.Results) == 1 && definitelyError(retVal(rt, 0)))
+				}, avoid: repair, blocked: blocked}).find(posOf(in))
+				found, wit = found2, wit2
+			}
+		}
+		r.Cond(!found, "ORD-7b", "replayAOF:non-EOF-error-is-repaired", w.Pos(c.Pos()), "every non-EOF read error leads to resync or truncate+sync",
+			"a ReadFrame error other than io.EOF can end replay without repairing the file (torn tail left in place): frames appended later land behind the torn header and are swallowed on the next start", w.witness(wit)...)
+	}
+}
+
+// ---------- ORD-1b: a snapshot that reports success has written and installed the snapshot ----------
+
+func ruleORD1b(w *World, r *Report) {
+	r.Doc("ORD-1b", "SaveSnapshot reports success only after saveSnapshotLocked ran, and that only after the snapshot was renamed into place (callers such as VImportCommit rely on it as their only durability step)", 2)
+	ss := w.Func("pkg/engine", "Engine.SaveSnapshot")
+	if ss == nil {
+		r.Und("ORD-1b", "anchor:Engine.SaveSnapshot", "", "anchor lost")
+		return
+	}
+	maySucceed := func(x ssa.Instruction) bool {
+		rt, ok := x.(*ssa.Return)
+		return ok && len(rt.Results) >= 1 && !definitelyError(retVal(rt, len(rt.Results)-1))
+	}
+	// chain: SaveSnapshot -> ... -> function renaming onto snapPath
+	renameOntoSnap := func(in ssa.Instruction) bool {
+		return isCallTo(in, "os", "Rename") && isFieldLoad(in.(*ssa.Call).Call.Args[1], "snapPath")
+	}
+	cur := ss
+	for depth := 0; depth < 4; depth++ {
+		fn := w.SSAFunc(cur.Obj)
+		if len(findInstrs(fn, renameOntoSnap)) > 0 {
+			// success only after a successful rename
+			blocked := map[edgeKey]bool{}
+			for _, rn := range findInstrs(fn, renameOntoSnap) {
+				for k := range failureEdges(fn, rn.(*ssa.Call)) {
+					blocked[k] = true
+				}
+			}
+			found, wit := (pathQuery{fn: fn, target: func(x ssa.Instruction) bool {
+				rt, ok := x.(*ssa.Return)
+				return ok && len(rt.Results) == 1 && isNilConst(retVal(rt, 0))
+			}, avoid: renameOntoSnap}).find(entryPos(fn))
+			r.Cond(!found, "ORD-1b", shortName(cur.Obj)+":success-implies-rename", w.Pos(cur.Decl.Pos()), "nil is returned only after the rename onto the snapshot path", shortName(cur.Obj)+" can return nil without having installed a snapshot", w.witness(wit)...)
+			return
+		}
+		// find the unique module callee in pkg/engine that leads on
+		var next *FuncInfo
+		var nextPred func(ssa.Instruction) bool
+		for _, in := range findInstrs(fn, func(in ssa.Instruction) bool { _, ok := in.(*ssa.Call); return ok }) {
+			o := calleeObj(&in.(*ssa.Call).Call)
+			if o == nil || relPkg(o) != "pkg/engine" {
+				continue
+			}
+			if d := w.Decl(o); d != nil && w.reachesRename(d, renameOntoSnap, 3) {
+				next = d
+				nextPred = callsTo(o)
+			}
+		}
+		if next == nil {
+			r.Bad("ORD-1b", shortName(cur.Obj)+":reaches-snapshot-writer", w.Pos(cur.Decl.Pos()), shortName(cur.Obj)+" no longer reaches the function that installs the snapshot file")
+			return
+		}
+		found, wit := (pathQuery{fn: fn, target: maySucceed, avoid: nextPred}).find(entryPos(fn))
+		r.Cond(!found, "ORD-1b", shortName(cur.Obj)+":success-implies-"+shortName(next.Obj), w.Pos(cur.Decl.Pos()), "every successful return passed "+shortName(next.Obj),
+			shortName(cur.Obj)+" can report success on a path that skips "+shortName(next.Obj)+" (a fast path): callers that rely on the snapshot as their only durability step (VImportCommit, whose imports bypass the log) acknowledge data that is on no disk", w.witness(wit)...)
+		cur = next
+	}
+}
+
+func (w *World) reachesRename(fi *FuncInfo, pred func(ssa.Instruction) bool, depth int) bool {
+	fn := w.SSAFunc(fi.Obj)
+	if fn == nil {
+		return false
+	}
+	if len(findInstrs(fn, pred)) > 0 {
+		return true
+	}
+	if depth == 0 {
+		return false
+	}
+	for _, in := range findInstrs(fn, func(in ssa.Instruction) bool { _, ok := in.(*ssa.Call); return ok }) {
+		o := calleeObj(&in.(*ssa.Call).Call)
+		if o == nil || relPkg(o) != "pkg/engine" || o == fi.Obj {
+			continue
+		}
+		if d := w.Decl(o); d != nil && w.reachesRename(d, pred, depth-1) {
+			return true
 		}
 	}
 	return false
